@@ -1098,6 +1098,9 @@ func TestVerifC09(t *testing.T) {
 	h.install()
 	stuckAfter := time.Duration(verifEnvInt("VERIF_C09_STUCK_S", 120)) * time.Second
 	ops := verifEnvInt("VERIF_C09_OPS", 4000)
+	if os.Getenv("VERIF_TIER") == "thorough" {
+		ops *= 4
+	}
 	rng := &vrng{s: verifSeed()}
 
 	// deterministic boundary list: one-frame pools, bitmap word boundaries, 2 and 16 workers, both yield modes
